@@ -48,8 +48,16 @@ func H_l2_nowrite() {
 	}
 	c.symValues()
 	c.build()
-	if vParam("loaded") == 1 {
+	switch vParam("loaded") {
+	case 1:
 		c.st = c.reload(c.st)
+	case 2: // loaded from a legacy (pre-0.5.10) stream written by the validated writer model
+		if c.enc == vEncU16 {
+			st, err := vLegacyLoad0509(c.keys, c.u16, 1, "0.5.9")
+			vAssert(err == nil, "C06.load-ok")
+			c.st = st
+			c.optc = 0
+		}
 	}
 	q := vString("q", vParam("lq"))
 	api := vParam("api")
